@@ -10,6 +10,10 @@ package main
 //                                 result (metadata + decrypted polynomial) equals the fresh-output result
 //   history_free/<op>             evaluator pre-used + scratch poisoned + output pre-used with a larger
 //                                 degree/level ⇒ same result as fresh evaluator / fresh output
+//   output_independent/<op>        the output of a call with a fresh distinct receiver shares no polynomial storage and no
+//                                 MetaData struct with an input (incl. rotation by 0, galEl = 1, scalars 0 / 1, nothing-to-do
+//                                 rescalings): harness/c09_naming.go, which also holds alias_naming/… (the receiver named through
+//                                 `x.El()` or a second header over the same storage) and the runs with differing LogDimensions
 // Tie lines (`alias`, `inputs`, `addhist`): for the operations transcribed in Lattigo/Model/Store.lean
 // the observed outcome class must equal the model's prediction.
 
@@ -45,6 +49,7 @@ type c09Env struct {
 	bgvE   *bgv.Encoder
 	ckksE  *ckks.Encoder
 	rots   []int
+	dims   string // "", "a<b", "a>b": LogDimensions of op0 made smaller / larger than op1's (metadata only)
 }
 
 type c09Evals struct {
@@ -296,13 +301,14 @@ type c09Op struct {
 	kind   string // kind of op1 for non-binary ops: "-", "pt", "u64", "big", "vec"
 	outDeg int
 	call   c09Call
-	store  string // name of the Store-model op ("" = not modelled)
+	store  string                                                                             // name of the Store-model op ("" = not modelled)
+	raw    func(ev *c09Evals, a *rlwe.Ciphertext, b rlwe.Operand, out *rlwe.Ciphertext) error // binary ops: the method itself
 }
 
 func (e *c09Env) catalogue() []c09Op {
 	var ops []c09Op
 	bin := func(name string, outDeg int, store string, f func(ev *c09Evals, a *rlwe.Ciphertext, b rlwe.Operand, out *rlwe.Ciphertext) error) {
-		ops = append(ops, c09Op{name: name, binary: true, kind: "ct", outDeg: outDeg, store: store,
+		ops = append(ops, c09Op{name: name, binary: true, kind: "ct", outDeg: outDeg, store: store, raw: f,
 			call: func(ev *c09Evals, a *rlwe.Ciphertext, b interface{}, out *rlwe.Ciphertext) error {
 				return f(ev, a, b.(*rlwe.Ciphertext), out)
 			}})
@@ -357,6 +363,11 @@ func (e *c09Env) catalogue() []c09Op {
 		un(T+"RotateColumns", "", func(ev *c09Evals, a, o *rlwe.Ciphertext) error { return ev.bgv.RotateColumns(a, 3, o) })
 		un(T+"RotateColumns(0)", "", func(ev *c09Evals, a, o *rlwe.Ciphertext) error { return ev.bgv.RotateColumns(a, 0, o) })
 		un(T+"RotateRows", "", func(ev *c09Evals, a, o *rlwe.Ciphertext) error { return ev.bgv.RotateRows(a, o) })
+		un(T+"Mul[scalar 1]", "", func(ev *c09Evals, a, o *rlwe.Ciphertext) error { return ev.bgv.Mul(a, uint64(1), o) })
+		un(T+"Mul[scalar 0]", "", func(ev *c09Evals, a, o *rlwe.Ciphertext) error { return ev.bgv.Mul(a, uint64(0), o) })
+		un(T+"Add[scalar 0]", "", func(ev *c09Evals, a, o *rlwe.Ciphertext) error { return ev.bgv.Add(a, uint64(0), o) })
+		un(T+"Sub[scalar 0]", "", func(ev *c09Evals, a, o *rlwe.Ciphertext) error { return ev.bgv.Sub(a, uint64(0), o) })
+
 		un(T+"InnerSum", "", func(ev *c09Evals, a, o *rlwe.Ciphertext) error { return ev.bgv.InnerSum(a, 1, 4, o) })
 		un(T+"Replicate", "", func(ev *c09Evals, a, o *rlwe.Ciphertext) error { return ev.bgv.Replicate(a, 1, 3, o) })
 	default:
@@ -384,6 +395,15 @@ func (e *c09Env) catalogue() []c09Op {
 		un(T+"Rotate", "", func(ev *c09Evals, a, o *rlwe.Ciphertext) error { return ev.ckks.Rotate(a, 3, o) })
 		un(T+"Rotate(0)", "", func(ev *c09Evals, a, o *rlwe.Ciphertext) error { return ev.ckks.Rotate(a, 0, o) })
 		un(T+"Conjugate", "", func(ev *c09Evals, a, o *rlwe.Ciphertext) error { return ev.ckks.Conjugate(a, o) })
+		un(T+"Mul[scalar 1]", "", func(ev *c09Evals, a, o *rlwe.Ciphertext) error { return ev.ckks.Mul(a, 1, o) })
+		un(T+"Mul[scalar 0]", "", func(ev *c09Evals, a, o *rlwe.Ciphertext) error { return ev.ckks.Mul(a, 0, o) })
+		un(T+"Add[scalar 0]", "", func(ev *c09Evals, a, o *rlwe.Ciphertext) error { return ev.ckks.Add(a, 0, o) })
+		un(T+"Sub[scalar 0]", "", func(ev *c09Evals, a, o *rlwe.Ciphertext) error { return ev.ckks.Sub(a, 0, o) })
+		un(T+"ScaleUp(1)", "", func(ev *c09Evals, a, o *rlwe.Ciphertext) error { return ev.ckks.ScaleUp(a, rlwe.NewScale(1), o) })
+		un(T+"RescaleTo(nothing to do)", "", func(ev *c09Evals, a, o *rlwe.Ciphertext) error { return ev.ckks.RescaleTo(a, a.Scale, o) })
+		un(T+"RotateHoisted[0,1]", "", func(ev *c09Evals, a, o *rlwe.Ciphertext) error {
+			return ev.ckks.RotateHoisted(a, []int{0, 1}, map[int]*rlwe.Ciphertext{0: o, 1: e.newCt(1, o.Level())})
+		})
 		un(T+"InnerSum", "", func(ev *c09Evals, a, o *rlwe.Ciphertext) error { return ev.ckks.InnerSum(a, 1, 4, o) })
 		un(T+"Replicate", "", func(ev *c09Evals, a, o *rlwe.Ciphertext) error { return ev.ckks.Replicate(a, 1, 3, o) })
 		un(T+"RotateHoisted", "", func(ev *c09Evals, a, o *rlwe.Ciphertext) error {
@@ -401,6 +421,15 @@ func (e *c09Env) catalogue() []c09Op {
 		ev.rl.DecomposeNTT(lvl, e.rp.MaxLevelP(), e.rp.PCount(), a.Value[1], a.IsNTT, ev.rl.BuffDecompQP)
 		return ev.rl.AutomorphismHoisted(lvl, a, ev.rl.BuffDecompQP, g1, o)
 	})
+	un(R+"AutomorphismHoisted(galEl=1)", "", func(ev *c09Evals, a, o *rlwe.Ciphertext) error {
+		lvl := a.Level()
+		if o.Level() < lvl {
+			lvl = o.Level()
+		}
+		ev.rl.DecomposeNTT(lvl, e.rp.MaxLevelP(), e.rp.PCount(), a.Value[1], a.IsNTT, ev.rl.BuffDecompQP)
+		return ev.rl.AutomorphismHoisted(lvl, a, ev.rl.BuffDecompQP, 1, o)
+	})
+	un(R+"Trace(logN=full: nothing to do)", "", func(ev *c09Evals, a, o *rlwe.Ciphertext) error { return ev.rl.Trace(a, e.logN, o) })
 	un(R+"ApplyEvaluationKey", "", func(ev *c09Evals, a, o *rlwe.Ciphertext) error { return ev.rl.ApplyEvaluationKey(a, e.swk, o) })
 	for _, n := range []int{1, 2, 3, 4, 5, 7, 8} {
 		n := n
@@ -576,6 +605,7 @@ func (e *c09Env) runOp(op c09Op, rel string, lvl0, lvl1 int) {
 		A = e.encrypt(1, lvl0, mulA)
 	}
 	B := e.operand(op.kind, rel, lvl1)
+	sc += e.applyDims(A, B)
 	accumulate := len(op.name) > 7 && op.name[len(op.name)-7:] == "ThenAdd" || len(op.name) > 12 && (op.name[len(op.name)-12:] == "ThenAdd[pt]" || false)
 	_ = accumulate
 	outLvl := lvl0
@@ -634,6 +664,7 @@ func (e *c09Env) runOp(op c09Op, rel string, lvl0, lvl1 int) {
 		detail += "keys-changed "
 	}
 	c.Probe("inputs_unchanged/"+op.name, sc, key("inputs", ""), detail)
+	c.Probe("output_independent/"+op.name, sc, "C09-independent-"+op.name, c09Independent(out, a, b))
 	if op.store != "" && (op.store != "bgvMatchScale" || rel != "eq") && !isAcc {
 		s0, s1 := c09Model(rel)
 		c.Emit(fmt.Sprintf("inputs %s %d %d", op.store, s0, s1), c09Class(detail == ""))
@@ -1146,6 +1177,26 @@ func genC09(c *Ctx) {
 						e.runOp(op, g.rel, g.l0, g.l1)
 					}
 				}
+				for _, op := range ops {
+					for _, rel := range []string{"eq", "lt3"} {
+						if rel != "eq" && (scheme != "ckks" || nP == 2) {
+							continue
+						}
+						e.runNaming(op, rel)
+					}
+				}
+				if nP == 1 {
+					for _, dm := range []string{"a<b", "a>b"} {
+						e.dims = dm
+						for _, op := range ops {
+							if op.kind == "ct" || op.kind == "pt" {
+								e.runOp(op, "eq", L, L)
+							}
+						}
+					}
+					e.dims = ""
+				}
+				e.runNewForms()
 				e.runSequences()
 				if nP == 1 {
 					e.runCodec()
